@@ -8,13 +8,13 @@ ids = [p["id"] for p in props]
 SWEEP_NOTE = "Trusted base: the harness's Input implementation and event/position models; bounded to the stated alphabets, lengths N/K and the corpus. std's panic machinery (catch_unwind) for panic detection."
 CHECKS = {
  "C01": dict(engine="E1 string-space sweep (+E4 isolation)", category="exploration", technique="bounded-exhaustive enumeration of input strings x back-end/API configurations against termination, panic-freedom and fixed linear work bounds",
-   text="Exhaustive enumeration of every string up to length 6 (quick) / 8 (thorough) over nine YAML-indicator alphabets, every sequence of up to 3/4 boundary chunks, the yaml-test-suite corpus (+ one-edit neighbourhood) and size-scaled generators, each run through 6 input back-ends x 3 parser APIs and 4 loaders x 4 entry points on the real code; a universally quantified 'never panics/aborts/spins, linear work' claim can only be sampled by tests, here it is decided for the whole bounded space.",
+   text="Exhaustive enumeration of every string up to length 6 (quick) / 8 (thorough) over nine YAML-indicator alphabets, every sequence of up to 3/4 boundary chunks, property / directive / escape soups, the yaml-test-suite corpus (+ one-edit neighbourhood) and size-scaled generators, each run through 6 input back-ends x 3 parser APIs and 4 loaders x 4 entry points on the real code; a universally quantified 'never panics/aborts/spins, linear work' claim can only be sampled by tests, here it is decided for the whole bounded space.",
    design_ref="DESIGN.md §4 C01", note=SWEEP_NOTE),
  "C02": dict(engine="E1 string-space sweep", category="exploration", technique="bounded-exhaustive enumeration of input strings checked by an independent push-down recogniser of the event grammar",
    text="Every string of the same bounded spaces is parsed (3 back-ends x pull/push) and the delivered events are run through an independent recogniser of the event sentence grammar with the anchor-id discipline; plus streams with 1 .. 2*10^5 anchors in four shapes (id counter width); exhaustive within the bounds.",
    design_ref="DESIGN.md §4 C02", note=SWEEP_NOTE),
  "C10": dict(engine="E1 string-space sweep", category="exploration", technique="bounded-exhaustive differential enumeration over ten Input back-ends",
-   text="Every string of the bounded spaces is parsed with StrInput, BufferedInput and eight contract-conforming inputs (capacities 8/16/64/128 x two raw-read flavours); complete observations (events, spans, error text and marker) must be identical. Exhaustive within the bounds.",
+   text="Every string of the bounded spaces is parsed with StrInput, BufferedInput and eight contract-conforming inputs (capacities 8/16/64/128 x two raw-read flavours); complete observations (events, spans, error text and marker) must be identical; a panic on one back-end alone is a difference; long generated inputs (3*10^5 characters) included. Exhaustive within the bounds.",
    design_ref="DESIGN.md §4 C10", note=SWEEP_NOTE),
  "C12": dict(engine="E1 string-space sweep", category="exploration", technique="bounded-exhaustive enumeration of inputs; every reported marker compared with an independent line/column model",
    text="Every marker in every event span and error of every string in the bounded spaces is compared with an independent position model, plus structural span rules, marked-node spans and the printed form of the error as ScanError, as load_from_str and as YamlDecoder::decode hand it out. Exhaustive within the bounds.",
